@@ -133,6 +133,8 @@ def c08_oracle(case):
         return None
     name = type(e).__name__
     msg = str(e)[:120]
+    if _raised_in_user_hook(e):
+        return None     # a hook that crashes (instead of raising SeasoningError/RecognitionError) breaks the protocol itself
     # classify for known-findings signatures
     if name == 'SeasoningError' and 'found multiple times' in msg:
         cls = 'duplicate-key'
@@ -156,3 +158,14 @@ def _pyyaml_scalar_origin(e):
         tb = tb.tb_next
     return last is not None and ('yaml/constructor.py' in last.tb_frame.f_code.co_filename
                                  or last.tb_frame.f_code.co_name.startswith('construct_yaml_'))
+
+
+def _raised_in_user_hook(e):
+    """The exception was raised while a generated _yatiml_savorize/_yatiml_recognize body was on the stack and is not
+    one of the documented ways of refusing."""
+    tb = e.__traceback__
+    while tb is not None:
+        if tb.tb_frame.f_code.co_name in ('_yatiml_savorize', '_yatiml_recognize', '_yatiml_sweeten'):
+            return True
+        tb = tb.tb_next
+    return False
